@@ -31,9 +31,9 @@ static std::string show(const vec &v)
 static bool is_sol(const std::vector<vec> &A, const vec &x)
 {
     for (const vec &r : A) {
-        long long s = 0;
+        __int128 s = 0; // entries up to 2^62 times small solution entries
         for (size_t k = 0; k < r.size(); k++)
-            s += r[k] * x[k];
+            s += (__int128)r[k] * (__int128)x[k];
         if (s != 0)
             return false;
     }
